@@ -122,9 +122,23 @@ def reorder_applies_a_permutation_or_raises_untouched(K):
         K.ensure("model untouched after the rejected reordering", len(after) == 3 and all(x is y for x, y in zip(after, before)) and tuple(K.attr(inv, "lhs_names")) == tuple(names_before))
 
 
+@contract("C16", targets=["irispie.sequentials._invariants:Invariant.reorder_equations"], instances=[(2,), (1,), (0,), (4,)], opts={"max_paths": 400})
+def reorder_rejects_an_order_of_the_wrong_length(K, length):
+    """A 'new order' that does not list every equation exactly once is not an order - also when all its entries are
+    valid and distinct (sequentialize_strictly hands over only the equations it managed to order when the model has a
+    contemporaneous loop): ValueError, model untouched."""
+    m = ir.Sequential.from_string(SEQ3)
+    inv = K.lift(m._invariant)
+    before = list(K.items(K.attr(inv, "explanatories")))
+    o = [K.int(f"o{i}", 0, 2) for i in range(length)]
+    K.raises(ValueError, lambda: K.method(inv, "reorder_equations", list(o)), "an order that is not a permutation of all equations is rejected")
+    after = list(K.items(K.attr(inv, "explanatories")))
+    K.ensure("model untouched after the rejected reordering", len(after) == 3 and all(x is y for x, y in zip(after, before)))
+
+
 @contract("C16", targets=[PB + "is_sequential"], instances=[()], canary=True)
 def canary_lower_triangle(K):
-    n = K.int("n", 2, None, sample=(2, 4))
+    n = 3        # fixed size: the refutation needs a concrete matrix, and a symbolic size made z3 search 40 s for it
     im = K.array("IM", (n, n), kind="bool")
     res = K.truth(K.call(BZ.is_sequential, im))
     r = K.int("r", 0, None, sample=(0, 3))
